@@ -45,6 +45,10 @@ def handle (j : Json) : P Json := do
   | "settle" => opSettle j
   | "poker" => opPoker j
   | "rank5" => opRank5 j
+  | "omaha" => opOmaha j
+  | "holdem" => opHoldem j
+  | "tiers" => opTiers j
+  | "strength" => opStrength j
   | "gin" => opGin j
   | "melds" => opMelds j
   | "layoff" => opLayoff j
